@@ -99,6 +99,23 @@ def fault_enumeration(ctx, names, oracle_fns, faults=None, latencies=(0.0, 0.3),
     return ex
 
 
+def batch_limit_sweep(ctx, names, oracle_fns, lo=90, hi=720, step=4, ops=(250,)):
+    """every program x every byte limit of the checkpoint batcher in [lo, hi): each position at which an update stops fitting
+    into the current batch (overflow path) is reached, with the asynchronous STARTs of nested contexts queued behind it"""
+    items = []
+    for nm in names:
+        prog = CURATED[nm] if isinstance(nm, str) else nm
+        for b in range(lo, hi, step):
+            for o in ops:
+                items.append((prog, {"seed": 11 + b, "batcher": {"bytes": b, "ops": o}, "max_inv": 14}))
+    ex = run_campaign(ctx, items)
+    ctx.notes["batch_limit_positions"] = ctx.notes.get("batch_limit_positions", 0) + len(items)
+    for e in ex:
+        for fn in oracle_fns:
+            fn(ctx, e)
+    return ex
+
+
 def replay_execution(d):
     sc = d["replay"]
     if sc.get("kind") != "execution":
